@@ -266,11 +266,16 @@ def build(entry, rs, dt):
         return lambda: D.symmetric_parafac_power_iteration(Xs, 2, n_repeat=2, n_iteration=2), real_ok
     if entry in PROX:
         v = A([int(rs.randint(2, 7)), int(rs.randint(1, 4))]) if rs.rand() < 0.6 else A([int(rs.randint(2, 7))])
-        table = {"prox_non_negative": lambda: P.proximal_operator(v, non_negative=True), "soft_thresholding": lambda: P.soft_thresholding(v, 0.3),
-                 "l2_prox": lambda: P.l2_prox(v, 0.3), "l2_square_prox": lambda: P.l2_square_prox(v, 0.3), "smoothness_prox": lambda: P.smoothness_prox(v, 0.3),
-                 "simplex_prox": lambda: P.simplex_prox(v, 1.0), "soft_sparsity_prox": lambda: P.soft_sparsity_prox(v, 1.0), "monotonicity_prox": lambda: P.monotonicity_prox(v),
-                 "unimodality_prox": lambda: P.unimodality_prox(v), "hard_thresholding": lambda: P.hard_thresholding(v, 2), "normalized_sparsity_prox": lambda: P.normalized_sparsity_prox(v, 2),
-                 "prox_normalize": lambda: P.proximal_operator(v, normalize=True), "svd_thresholding": lambda: P.svd_thresholding(v.reshape(v.shape[0], -1), 0.3),
+        # parameter regimes select code paths: ordinary, total shrinkage (everything is thresholded away), no shrinkage at all
+        regime = gen.choice(rs, ["ordinary", "ordinary", "total", "none"])
+        t = {"ordinary": 0.3, "total": 1e6, "none": 1e-12}[regime]
+        kk = {"ordinary": 2, "total": 1, "none": 10 ** 6}[regime]
+        rad = {"ordinary": 1.0, "total": 1e-6, "none": 1e6}[regime]
+        table = {"prox_non_negative": lambda: P.proximal_operator(v, non_negative=True), "soft_thresholding": lambda: P.soft_thresholding(v, t),
+                 "l2_prox": lambda: P.l2_prox(v, t), "l2_square_prox": lambda: P.l2_square_prox(v, t), "smoothness_prox": lambda: P.smoothness_prox(v, t),
+                 "simplex_prox": lambda: P.simplex_prox(v, rad), "soft_sparsity_prox": lambda: P.soft_sparsity_prox(v, rad), "monotonicity_prox": lambda: P.monotonicity_prox(v),
+                 "unimodality_prox": lambda: P.unimodality_prox(v), "hard_thresholding": lambda: P.hard_thresholding(v, kk), "normalized_sparsity_prox": lambda: P.normalized_sparsity_prox(v, kk),
+                 "prox_normalize": lambda: P.proximal_operator(v, normalize=True), "svd_thresholding": lambda: P.svd_thresholding(v.reshape(v.shape[0], -1), t),
                  "procrustes": lambda: P.procrustes(v.reshape(v.shape[0], -1))}
         return table[entry], real_ok
     if entry in SOLVERS:
